@@ -230,7 +230,7 @@ func (stmt *Statement) AddVar(writer clause.Writer, vars ...interface{}) {
 				}
 			} else {
 				subdb.Statement.Vars = append(stmt.Vars, subdb.Statement.Vars...)
-				subdb.callbacks.Query().Execute(subdb)
+				subdb = subdb.callbacks.Query().Execute(subdb)
 			}
 
 			writer.WriteString(subdb.Statement.SQL.String())
